@@ -27,6 +27,20 @@ func main() {
 		}
 		b, _ := json.Marshal(out)
 		fmt.Println(string(b))
+	case "variants":
+		fs := flag.NewFlagSet("variants", flag.ExitOnError)
+		tier := fs.String("tier", "quick", "quick | thorough")
+		prop := fs.String("prop", "", "property id")
+		fs.Parse(os.Args[2:])
+		var out []map[string]interface{}
+		for _, v := range variants() {
+			if (*tier == "quick" && !v.Quick) || (*prop != "" && v.Prop != *prop) {
+				continue
+			}
+			out = append(out, map[string]interface{}{"name": v.Name, "prop": v.Prop, "base": v.Base})
+		}
+		b, _ := json.Marshal(out)
+		fmt.Println(string(b))
 	case "build":
 		fs := flag.NewFlagSet("build", flag.ExitOnError)
 		name := fs.String("program", "", "program name")
@@ -36,7 +50,19 @@ func main() {
 		km := fs.Int("km", 2, "map bound")
 		fams := fs.String("families", "", "comma separated harness families (default: the program's)")
 		known := fs.String("known", "", "known-findings JSON (entries of this property with status known)")
+		variant := fs.String("variant", "", "differential variant name (instead of -program)")
 		fs.Parse(os.Args[2:])
+		if *variant != "" {
+			v := findVariant(*variant)
+			if v == nil {
+				must(fmt.Errorf("unknown variant %q", *variant))
+			}
+			info, err := buildVariant(v, *plug, *out, *kl, *km)
+			must(err)
+			b, _ := json.Marshal(info)
+			fmt.Println(string(b))
+			return
+		}
 		p := findProgram(*name)
 		if p == nil {
 			must(fmt.Errorf("unknown program %q", *name))
